@@ -35,6 +35,11 @@ import (
 )
 
 const c08Chain = "eth-main"
+
+// jobs, transfers and claims use eth-main; the other chains exist so that validators can lose support for several chains
+// of one type (the periodic jailing for missing chain accounts records the list of missing chains as the reason)
+var c08Chains = []chain.EvmChain{{RefID: c08Chain, ChainID: 1}, {RefID: "bnb-main", ChainID: 56}, {RefID: "base-main", ChainID: 8453}, {RefID: "gno-main", ChainID: 100}}
+
 const c08ERC20 = "0x00000000000000000000000000000000000000E1"
 const c08EnvFlag = "PALOMA_FF_PIGEON_STATUS_UPDATE"
 
@@ -80,7 +85,7 @@ func c08Run(t *rapid.T, salt string, stakes []int64, ops []c08Op, nu c08Nuisance
 			os.Unsetenv(k)
 		}
 	}()
-	c, err := chain.New(chain.Options{Salt: salt, Stakes: stakes, InitialHeight: 44, Users: []string{"ua", "ub"}, EvmChains: []chain.EvmChain{{RefID: c08Chain, ChainID: 1}}})
+	c, err := chain.New(chain.Options{Salt: salt, Stakes: stakes, InitialHeight: 544, Users: []string{"ua", "ub"}, EvmChains: c08Chains})
 	if err != nil {
 		t.Fatalf("boot: %v", err)
 	}
@@ -204,6 +209,34 @@ func c08Run(t *rapid.T, salt string, stakes []int64, ops []c08Op, nu c08Nuisance
 			for k := 0; k < op.A; k++ {
 				block()
 			}
+		case "dropChains":
+			// the validator replaces its set of remote accounts: eth-main plus a generated subset of the others
+			v := c.Vals[op.A%n]
+			var infos []*vtypes.ExternalChainInfo
+			for j, ec := range c08Chains {
+				if j > 0 && op.L[j%len(op.L)]%2 == 0 {
+					continue
+				}
+				ea := chain.EthAddr(v.EthKeys[ec.RefID])
+				infos = append(infos, &vtypes.ExternalChainInfo{ChainType: "evm", ChainReferenceID: ec.RefID, Address: ea.Hex(), Pubkey: ea.Bytes()})
+			}
+			if len(c08Chains)-len(infos) >= 2 {
+				labels["validatorMissing>=2Chains"] = true
+			}
+			block(c.MustSign(v.Actor, &vtypes.MsgAddExternalChainInfoForValidator{Metadata: chain.MD(v.Actor), ChainInfos: infos}))
+		case "toNext303":
+			// the chain starts at height 544: the first multiple of 303 ahead is 606; later ones are too far to walk to
+			target := (c.H/303 + 1) * 303
+			if target-c.H > 80 {
+				block()
+				break
+			}
+			for c.H <= target {
+				block()
+			}
+			if labels["validatorMissing>=2Chains"] {
+				labels["missingChainsJailingHeight"] = true
+			}
 		case "toNext50":
 			target := (c.H/50 + 1) * 50
 			for c.H <= target {
@@ -227,7 +260,7 @@ func TestC08_TwinExecutionsAgree(t *testing.T) {
 				stakes[i] = int64(rapid.IntRange(50, 150).Draw(t, "stake")) * 1_000_000
 			}
 		}
-		kinds := []string{"status", "status", "exec", "exec", "fee", "keepAlive", "delegate", "estimates", "evidence", "send", "deposit", "advance", "toNext50"}
+		kinds := []string{"status", "status", "exec", "exec", "fee", "keepAlive", "delegate", "estimates", "evidence", "send", "deposit", "advance", "toNext50", "dropChains", "dropChains", "toNext303"}
 		nops := rapid.IntRange(5, 25).Draw(t, "nOps")
 		ops := make([]c08Op, nops)
 		for i := range ops {
@@ -298,7 +331,7 @@ func TestC08_TwinExecutionsAgree(t *testing.T) {
 			labels = append(labels, "envDiffers")
 		}
 		sort.Strings(labels)
-		nt := (equal && labA["relayerSelection"]) || labA["evidenceTallyWith>=2Groups"] || labA["unknownStatusLevel"] || labB["restart"]
+		nt := (equal && labA["relayerSelection"]) || labA["evidenceTallyWith>=2Groups"] || labA["unknownStatusLevel"] || labB["restart"] || labA["missingChainsJailingHeight"]
 		opsJSON, _ := json.Marshal(ops)
 		evid.Case(t.Name(), fmt.Sprintf("stakes=%v env=%v restarts=%v %s", stakes, nuB.Env, keysOf(nuB.Restarts), opsJSON), nt, labels, func() any {
 			return map[string]any{"stakes": stakes, "ops": ops, "nuisanceB": map[string]any{"env": nuB.Env, "restartsBeforeOp": keysOf(nuB.Restarts), "queriesBeforeOps": len(nuB.Queries)}, "blocks": len(dA)}
